@@ -1045,14 +1045,31 @@ theorem completion_and_timeout_same_quantity (s : Mpp) (hne : s.parts ≠ []) (h
       obtain ⟨_, d, hd⟩ := hp.2.1 hv
       exact ⟨_, _, d, by rw [hd]; exact List.mem_singleton.2 rfl⟩
 
+/-- The amount test of `create_recv_pending_htlc_info` (whatever statement the translator read from the Rust text: the
+    `if` chain that returns `FinalIncorrectHTLCAmount`, with the `let`s it reads), stated EXACTLY for all inputs: the HTLC
+    is let through iff the onion amount is at most what arrived — plus the skimmed fee the peer declares ONLY IF the
+    channel opted into `accept_underpaying_htlcs` (u64 saturating sum).  Any rewrite of the Rust test that the translator
+    can read and that credits the fee without the opt-in, flips the comparison, moves the boundary by one or reads
+    another amount regenerates `recvAmountTooLow` and this proof stops checking. -/
+theorem recvAmountTest_exact (allow : Bool) (onion amt : Nat) (skim : Option Nat) :
+    MppGen.recvAmountTooLow allow onion amt skim = false ↔
+      onion ≤ (if allow then min (amt + skim.getD 0) (2 ^ 64 - 1) else amt) := by
+  -- shape-independent on purpose: any `let` / nested-`if` form of the same test goes through, a different test does not
+  cases allow <;> simp only [MppGen.recvAmountTooLow, satAdd64] <;> (repeat' split) <;> simp at * <;> omega
+
 /-- a part that passed the amount test of `create_recv_pending_htlc_info` (translated) carries at least
     the onion amount once the skimmed fee it declares is added back (`accept_underpaying_htlcs` or not) -/
 theorem recvAmountTooLow_false (allow : Bool) (onion amt : Nat) (skim : Option Nat)
     (h : MppGen.recvAmountTooLow allow onion amt skim = false) : onion ≤ amt + skim.getD 0 := by
-  cases allow
-  · simp [MppGen.recvAmountTooLow] at h; omega
-  · simp only [MppGen.recvAmountTooLow, Bool.not_true, Bool.false_and, Bool.true_and, Bool.false_or, satAdd64] at h
-    split at h <;> simp only [decide_eq_false_iff_not, Nat.not_lt, gt_iff_lt] at h <;> omega
+  have := (recvAmountTest_exact allow onion amt skim).1 h
+  cases allow <;> simp at this <;> omega
+
+/-- without the opt-in nothing is credited: a part admitted on a channel with `accept_underpaying_htlcs = false` carries at
+    least its onion amount, whatever `skimmed_fee_msat` TLV the peer attached -/
+theorem strict_admit_not_underpaid (onion amt : Nat) (skim : Option Nat)
+    (h : MppGen.recvAmountTooLow false onion amt skim = false) : onion ≤ amt := by
+  have := (recvAmountTest_exact false onion amt skim).1 h
+  simpa using this
 
 /-- What is reported and claimed is what ARRIVED.  For the set announced by PaymentClaimable
     `{amount a, skimmed k}`: `a` = Σ value and `k` = Σ counterparty_skimmed_fee_msat of the held parts,
@@ -1093,6 +1110,70 @@ theorem claimed_amount_accounts_for_skim (s : Mpp) (hs : Reachable s) (op : Op) 
   · have : sumIntended ps ≤ sumValue ps := sum_le_of_forall ps _ _ hov
     omega
 
+/-- Whole-history consequence: if every part of a set announced by PaymentClaimable `{amount a, skimmed k}` was admitted
+    by the translated amount test on a channel that did NOT opt into under-paying HTLCs, then `a` itself — not `a + k` —
+    reaches `total_msat` (the amount committed to), whatever fees the peers declared.  Proved for ALL reachable accumulator
+    states and part ops. -/
+theorem not_underpaid_without_opt_in (s : Mpp) (hs : Reachable s) (op : Op) (a k d : Nat)
+    (h : Out.claimable a k d ∈ (step s op).2)
+    (hstrict : ∀ p ∈ (step s op).1.parts, MppGen.recvAmountTooLow false p.intended p.value p.skim = false) :
+    (step s op).1.total ≤ a ∧ sumIntended (step s op).1.parts ≤ a := by
+  obtain ⟨ha, _, hge, _, _, hov⟩ := claimed_amount_accounts_for_skim s hs op a k d h
+  have hall : ∀ p ∈ (step s op).1.parts, p.intended ≤ p.value :=
+    fun p hp => strict_admit_not_underpaid _ _ _ (hstrict p hp)
+  refine ⟨hov hall, ?_⟩
+  rw [ha]; exact sum_le_of_forall _ _ _ hall
+
+/-- The `min_final_cltv_expiry_delta` test of `process_receive_htlcs` (translated from the Rust text: the statement after
+    `inbound_payment::verify` returned `Some(min_final_cltv_expiry_delta)`), stated EXACTLY for all heights, deltas and
+    expiries: the HTLC goes on to the accumulator iff its expiry is at least the receiver's height plus the delta that was
+    committed to when the payment was registered.  A flipped / off-by-one comparison, another height or a dropped
+    addition regenerates `recvCltvBelowMin` and this proof stops checking. -/
+theorem recvCltvTest_exact (height delta cltv : Nat) :
+    MppGen.recvCltvBelowMin height delta cltv = false ↔ height + delta ≤ cltv := by
+  simp [MppGen.recvCltvBelowMin]
+
+/-- Whole-history consequence for the advertised claim window: if every part of the set announced by PaymentClaimable
+    with `claim_deadline d` passed the translated test with the registered `delta` at a height `≥ h` (parts arrive at
+    non-decreasing heights; `h` = the height when the first part arrived), then `d ≥ h + delta − HTLC_FAIL_BACK_BUFFER`:
+    the user is never shown a payment whose claim window is shorter than the registered delta promises.
+    For ALL reachable accumulator states and part ops. -/
+theorem registered_cltv_delta_bounds_claim_deadline (s : Mpp) (op : Op) (a k d h delta : Nat)
+    (hc : Out.claimable a k d ∈ (step s op).2)
+    (hadm : ∀ p ∈ (step s op).1.parts, ∃ hp, h ≤ hp ∧ MppGen.recvCltvBelowMin hp delta p.cltv = false) :
+    h + delta - HTLC_FAIL_BACK_BUFFER ≤ d := by
+  obtain ⟨_, _, _, _, m, hm, _, hd⟩ := claimable_amount_deadline s op a k d hc
+  obtain ⟨p, hp, rfl⟩ := List.mem_map.1 hm
+  obtain ⟨hp', hle, hpass⟩ := hadm p hp
+  have := (recvCltvTest_exact hp' delta p.cltv).1 hpass
+  omega
+
+/-- Which final-hop HTLCs go on to the payment logic at all (create_recv_pending_htlc_info's routing selection, translated
+    arm by arm in source order), for EVERY hash function, preimage, hash and payload: an HTLC is handed on as a keysend
+    only if the SHA-256 of the preimage its onion carries IS the payment hash ("a valid spontaneous payment"), as an
+    invoice payment only if its onion carries payment_data (a payment secret, which `inbound_payment::verify` then
+    checks) and no keysend preimage; everything else is refused with the translated reason.  A flipped preimage test,
+    swapped arms or an accepting `else` regenerate `recvRouting` and this proof stops checking. -/
+theorem routing_requires_valid_keysend_or_secret (sha256 : Nat → Nat) (ks : Option Nat) (pd : Bool) (hash : Nat) :
+    (MppGen.recvRouting sha256 ks pd hash = .keysend ↔ ∃ p, ks = some p ∧ sha256 p = hash) ∧
+    (MppGen.recvRouting sha256 ks pd hash = .invoice ↔ ks = none ∧ pd = true) ∧
+    (MppGen.recvRouting sha256 ks pd hash = .refused .invalidKeysendPreimage ↔ ∃ p, ks = some p ∧ sha256 p ≠ hash) ∧
+    (MppGen.recvRouting sha256 ks pd hash = .refused .paymentSecretRequired ↔ ks = none ∧ pd = false) := by
+  cases ks with
+  | none => cases pd <;> simp [MppGen.recvRouting]
+  | some p =>
+    by_cases h : sha256 p = hash <;> simp [MppGen.recvRouting, MppGen.keysendPreimageMismatch, h]
+
+/-- From the wire to the part: the `PendingHTLCInfo` amounts create_recv_pending_htlc_info returns (translated), fed through the
+    translated `let value = ..` and `ClaimableHTLC { .. }` of process_receive_htlcs, give a part whose `value` is the HTLC's
+    amount, whose `sender_intended_value` is the onion amount and whose skimmed fee is the message's TLV — for all inputs.
+    (Swapping the two amounts anywhere on this path regenerates one of the three definitions and breaks this `rfl`.) -/
+theorem wire_amounts_reach_the_part (amt_msat onion_amt_msat cltv : Nat) (skim : Option Nat) :
+    let info := MppGen.recvInfoAmounts amt_msat onion_amt_msat skim
+    MppGen.recvPart (MppGen.recvValue info.1 info.2.1) info.2.1 cltv info.2.2 =
+      { value := amt_msat, sender_intended_value := onion_amt_msat, timer_ticks := 0, total_value_received := none,
+        cltv_expiry := cltv, counterparty_skimmed_fee_msat := skim } := rfl
+
 /-- Front end + accumulator, composed.  `process_receive_htlcs` hands a part to `handle_claimable_htlc` only after
     `inbound_payment::verify(hash, secret, total_msat of THIS part's onion, ..)` accepted.  If the part that completes a
     set was so verified (for ANY crypto, keys, hash, secret, metadata, time), then for the announced PaymentClaimable
@@ -1127,6 +1208,21 @@ theorem claimable_never_below_verified_invoice_amount (C : PayCrypto) (k : Keys)
   · have : sumIntended (step s (.part id value intended skim total' cltv tag ev)).1.parts ≤
         sumValue (step s (.part id value intended skim total' cltv tag ev)).1.parts := sum_le_of_forall _ _ _ hall
     omega
+
+/-- Front end + amount test + accumulator on channels WITHOUT `accept_underpaying_htlcs` (the default): if the completing
+    part was verified by `inbound_payment::verify` and every held part passed the translated amount test with
+    `allow_underpay = false`, the amount shown in PaymentClaimable itself reaches the invoice amount encoded in the secret —
+    whatever `skimmed_fee_msat` TLVs the peers attached.  (This is the statement the round-5 seeded change falsifies:
+    with it `recvAmountTooLow false` no longer implies `intended ≤ value`, and `strict_admit_not_underpaid` stops checking.) -/
+theorem strict_claimable_reaches_verified_invoice_amount (C : PayCrypto) (k : Keys) (hash secret : Bytes) (md : Option Bytes) (now : Nat)
+    (s : Mpp) (hs : Reachable s) (id value intended : Nat) (skim : Option Nat) (total cltv tag : Nat) (ev : Bool) (a kf d : Nat)
+    (hv : ∃ r, verify C k hash secret total md now = .ok r)
+    (h : Out.claimable a kf d ∈ (step s (.part id value intended skim total cltv tag ev)).2)
+    (hstrict : ∀ p ∈ (step s (.part id value intended skim total cltv tag ev)).1.parts,
+        MppGen.recvAmountTooLow false p.intended p.value p.skim = false) :
+    minAmtOf C k secret ≤ a :=
+  (claimable_never_below_verified_invoice_amount C k hash secret md now s hs id value intended skim total cltv tag ev a kf d hv h).2.2.2.2.2.2
+    (fun p hp => strict_admit_not_underpaid _ _ _ (hstrict p hp))
 
 /-! ## non-vacuity: concrete instances of every hypothesis and outcome used above -/
 
@@ -1215,5 +1311,25 @@ example : (MppGen.checkMppTimeout [⟨580, 600, 0, none, 500, some 20⟩] 1000).
 example : MppGen.recvAmountTooLow true 600 580 (some 20) = false ∧ MppGen.recvAmountTooLow true 600 579 (some 20) = true ∧
     MppGen.recvAmountTooLow false 600 580 (some 20) = true ∧ MppGen.recvAmountTooLow false 600 600 none = false := by decide
 example : (580 : Nat) + (some 20 : Option Nat).getD 0 = 600 := by decide
+
+-- recvAmountTest_exact / not_underpaid_without_opt_in: both sides of the iff occur for both settings, incl. the u64 saturation
+example : MppGen.recvAmountTooLow false 600 580 (some 20) = true ∧ MppGen.recvAmountTooLow false 600 600 (some 20) = false ∧
+    MppGen.recvAmountTooLow true (2 ^ 64 - 1) (2 ^ 64 - 2) (some 5) = false ∧ MppGen.recvAmountTooLow true 601 580 (some 20) = true := by decide
+example : Out.claimable 1000 20 441 ∈ (step (step Mpp.init (.part 2 600 600 (some 20) 1000 500 1 false)).1 (.part 1 400 400 none 1000 480 1 false)).2 ∧
+    (∀ p ∈ (step (step Mpp.init (.part 2 600 600 (some 20) 1000 500 1 false)).1 (.part 1 400 400 none 1000 480 1 false)).1.parts,
+      MppGen.recvAmountTooLow false p.intended p.value p.skim = false) := by decide
+
+-- recvCltvTest_exact / registered_cltv_delta_bounds_claim_deadline: the boundary, and a set whose parts all pass at height 400 with delta 80
+example : MppGen.recvCltvBelowMin 400 80 479 = true ∧ MppGen.recvCltvBelowMin 400 80 480 = false := by decide
+example : Out.claimable 1000 0 441 ∈ (step (step Mpp.init (.part 2 600 600 none 1000 500 1 false)).1 (.part 1 400 400 none 1000 480 1 false)).2 ∧
+    (∀ p ∈ (step (step Mpp.init (.part 2 600 600 none 1000 500 1 false)).1 (.part 1 400 400 none 1000 480 1 false)).1.parts,
+      ∃ hp, 400 ≤ hp ∧ MppGen.recvCltvBelowMin hp 80 p.cltv = false) := by
+  refine ⟨by decide, ?_⟩
+  intro p hp
+  exact ⟨400, Nat.le_refl _, by revert p; decide⟩
+
+-- routing_requires_valid_keysend_or_secret: all four outcomes occur
+example : MppGen.recvRouting (fun p => p + 1) (some 4) false 5 = .keysend ∧ MppGen.recvRouting (fun p => p + 1) (some 4) true 6 = .refused .invalidKeysendPreimage ∧
+    MppGen.recvRouting (fun p => p + 1) none true 5 = .invoice ∧ MppGen.recvRouting (fun p => p + 1) none false 5 = .refused .paymentSecretRequired := by decide
 
 end Ldk.C04
